@@ -294,3 +294,40 @@ Lemma rawget_meta_independent_lemma n fr r k rest s s' :
 Proof.
   intros H. exists (rawget_of s r k). rewrite !rawget_never_calls_lemma. unfold rawget_of. rewrite H. auto.
 Qed.
+
+(* ---------- __tostring, __metatable ---------- *)
+Lemma tostring_handler_lemma n fr v s :
+  is_nil (metafield s v s_mm_tostring) = false ->
+  tostring_v (S n) fr v s = first_of (call n fr (metafield s v s_mm_tostring) [v] s).
+Proof.
+  intros H. rewrite tostring_v_step. unfold bindM, getmeta. cbn [bind]. rewrite H. reflexivity.
+Qed.
+
+(* getmetatable: the __metatable field if present, else the metatable itself, else nil *)
+Lemma getmetatable_lemma n fr v rest s :
+  builtin_call (S n) fr BGetMt (v :: rest) s =
+  if negb (is_nil (metafield s v s_mm_metatable)) then Ret [metafield s v s_mm_metatable] s
+  else match metatable_of s v with Some m => Ret [VTab m] s | None => Ret [VNil] s end.
+Proof.
+  cbn [builtin_call nth]. unfold bindM, getmeta. cbn [bind].
+  destruct (negb (is_nil (metafield s v s_mm_metatable))); reflexivity.
+Qed.
+
+(* setmetatable on a protected table raises and changes nothing *)
+Inductive is_err_unchanged (s : state) : res (list value) -> Prop :=
+| ieu v : is_err_unchanged s (Err v s).
+
+Lemma setmetatable_protected_lemma n fr r m rest s :
+  is_nil (metafield s (VTab r) s_mm_metatable) = false ->
+  is_err_unchanged s (builtin_call (S n) fr BSetMt (VTab r :: m :: rest) s).
+Proof.
+  intros H. cbn [builtin_call nth]. unfold bindM, getmeta. cbn [bind]. rewrite H. cbn [negb]. constructor.
+Qed.
+
+Lemma setmetatable_sets_lemma n fr r m rest s :
+  is_nil (metafield s (VTab r) s_mm_metatable) = true ->
+  builtin_call (S n) fr BSetMt (VTab r :: VTab m :: rest) s =
+  Ret [VTab r] (with_tabs s (set_nth (tabs s) r (mkTab (t_kv (tab_of s r)) (Some m)))).
+Proof.
+  intros H. cbn [builtin_call nth]. unfold bindM, getmeta. cbn [bind]. rewrite H. reflexivity.
+Qed.
